@@ -290,6 +290,24 @@ func init() {
 			FactPrefix("not-relay-error", "!param#0"), ErrNil(psm+"OnSessionDone"), CallIs(true, ls+"SingleProviderSession.IsPayingRelay"))
 		c.RequireGuards("C39f", c.CallsByName(trs, false, rp+"RPCProviderServer.SendProof"), "SendProof",
 			ErrNil("invoke:protocol/rpcprovider.ProviderNodeSubscriptionManagerInf.AddConsumer", "protocol/chainlib.ProviderNodeSubscriptionManager.AddConsumer"))
+		c.Rule("C39g the chain's pairing answer is remembered per (consumer, chain, epoch, provider): every key ProviderStateQuery.entryKey can return is built from all four parameters, and VerifyPairing looks up and stores under entryKey of its own consumer, chain, epoch and provider — an answer cached without the epoch admits a consumer in an epoch the chain never paired it in")
+		const sq = "protocol/statetracker/updaters."
+		c.RequireAllParamsInEveryResult("C39g", sq+"ProviderStateQuery.entryKey")
+		if vp := c.Fn(sq + "ProviderStateQuery.VerifyPairing"); vp != nil {
+			sites := c.CallsByName(vp, false, sq+"ProviderStateQuery.entryKey")
+			if len(sites) == 0 {
+				c.Fail("C39g/VerifyPairing/key=entryKey(consumer,chain,epoch,provider)", c.P.Pos(vp.Pos()), "VerifyPairing no longer derives its cache key from entryKey")
+			}
+			for _, s := range sites {
+				a := ir.CallOf(s.Instr).Args
+				// VerifyPairing(ctx, consumer, provider, epoch, chain); entryKey(recv, consumer, chain, epoch, provider)
+				if len(a) == 5 && len(vp.Params) == 6 && a[1] == ssa.Value(vp.Params[2]) && a[2] == ssa.Value(vp.Params[5]) && a[3] == ssa.Value(vp.Params[4]) && a[4] == ssa.Value(vp.Params[3]) {
+					c.OK("C39g/VerifyPairing/key=entryKey(consumer,chain,epoch,provider)", c.P.InstrPos(s.Instr), "own parameters in the right slots")
+				} else {
+					c.Fail("C39g/VerifyPairing/key=entryKey(consumer,chain,epoch,provider)", c.P.InstrPos(s.Instr), "VerifyPairing's cache key is not entryKey of its own consumer, chain, epoch and provider: "+strings.Join(argDescs(ir.CallOf(s.Instr)), ","))
+				}
+			}
+		}
 		c.NotCovered("equality of session/CU state before and after a rejected request (value clause); correctness of VerifyPairing's on-chain query")
 	})
 }
